@@ -9,6 +9,7 @@ mod hist;
 
 mod c01;
 mod c02;
+mod c03;
 mod c13;
 
 use util::*;
@@ -65,6 +66,7 @@ fn main() {
     match p.prop.as_str() {
         "C01" => c01::run(&p, &mut rep),
         "C02" => c02::run(&p, &mut rep),
+        "C03" => c03::run(&p, &mut rep),
         "C13" => c13::run(&p, &mut rep),
         other => {
             eprintln!("no monitor for {}", other);
